@@ -1,13 +1,15 @@
-(* Extraction of the lax slicing model, the strict slicing model and the wire
-   specification (C05). *)
+(* Extraction of the lax slicing model, the strict slicing model, the wire
+   specification and the two reference decoders of Parse/LaxWire.v (lax reference decoder
+   `lwire_*`, instrumented strict reference decoder `pwire_*`) (C05). *)
 From EP Require Import Base.Bytes Parse.Types Parse.Slices Parse.Cursor Parse.View Parse.WireSpec
-  Parse.LaxSlices Parse.LaxCursor Parse.LaxView.
+  Parse.LaxSlices Parse.LaxCursor Parse.LaxView Parse.LaxWire.
 From Coq Require Import Extraction ExtrOcamlBasic.
 Extraction Language OCaml.
 Extraction "m_c05.ml"
   N.add N.mul N.of_nat mk_slice win_of
   SlicedPacket.from_ethernet SlicedPacket.from_ether_type SlicedPacket.from_ip vres_of
   wire_ethernet wire_ether_type wire_from_ip
+  lwire_ethernet lwire_ether_type lwire_from_ip pwire_ethernet pwire_ether_type pwire_from_ip
   LaxSlicedPacket.from_ethernet LaxSlicedPacket.from_ether_type LaxSlicedPacket.from_ip lvres_of
   LaxIpSlice.from_slice LaxIpv4Slice.from_slice LaxIpv6Slice.from_slice LaxMacsecSlice.from_slice
   LaxIpv6Exts.from_slice_lax LaxIpv4Exts.from_slice_lax Ipv4Exts.from_slice UdpSlice.from_slice_lax
